@@ -366,3 +366,17 @@ pub(crate) fn verif_skip_trivia(src: &str) -> Option<usize> {
         .ok()
         .map(|(rest, _)| src.len() - rest.len())
 }
+
+/// Verification hook: the name scanners of `common` on `src` (see `crate::verif_hooks`).
+/// `kind`: 0 = `type_reference`, 1 = `identifier`, 2 = `value_reference`. Returns the scanned
+/// name and the number of bytes consumed, `None` when the scanner refuses.
+#[cfg(rasn_compiler_verif)]
+pub(crate) fn verif_scan_name(kind: u8, src: &str) -> Option<(String, usize)> {
+    let input = Input::from(src);
+    let res = match kind {
+        0 => common::type_reference(input),
+        1 => common::identifier(input),
+        _ => common::value_reference(input),
+    };
+    res.ok().map(|(rest, name)| (name.to_string(), src.len() - rest.len()))
+}
